@@ -3,6 +3,7 @@
 From Coq Require Export List NArith Bool.
 From Coq Require Ascii String.
 Export String.StringSyntax.
+Delimit Scope string_scope with string.
 Export ListNotations.
 Open Scope N_scope.
 
